@@ -1,6 +1,7 @@
 package main
 
 import (
+	"fmt"
 	"sort"
 	"strings"
 
@@ -164,5 +165,48 @@ func runC19(c *Ctx) {
 		c.ArgIs(fn, "the merged temp is the removed one", rm, 1, 0, "temps[(len(temps) - 1)]")
 		c.ArgIs(fn, "the oldest temp is merged", c.CallsD(fn, "perm.MergeTempDatabase(*)"), 1, 1, "temps[(len(temps) - 1)]")
 		c.MP(fn, "the newest temp is kept out of the permanent merge", c.CallsD(fn, "perm.MergeTempDatabase(*)"), 1, GCmp("len(temps)", ">=", "2"))
+	}
+	// the permanent database's own by-block-height lookup: newest record at or below the height
+	if parent := c.Need("isaac/database.(*LeveldbPermanent).SuffrageProofByBlockHeight"); parent != nil {
+		var scan *ssa.Function
+		for _, f := range WithClosures(parent) {
+			if len(c.CallsD(f, "*.Iter(util.BytesPrefix(isaacdatabase.leveldbKeySuffrageProofByBlockHeight[:]), *)")) > 0 {
+				scan = f
+			}
+		}
+		if scan == nil {
+			c.Unresolved(parent, "permanent by-height scan", "iteration over the by-block-height records not found")
+		} else {
+			rng := "util.BytesPrefix(isaacdatabase.leveldbKeySuffrageProofByBlockHeight[:])"
+			c.StoredIs(scan, "permanent by-height scan includes the requested height (exclusive limit is height+1)", c.StoresD(scan, "&"+rng+".Limit"), 1,
+				"isaacdatabase.leveldbSuffrageProofByBlockHeightKey((height + 1))")
+			n := 0
+			for _, in := range allInstrs(scan) {
+				if st, ok := in.(*ssa.Store); ok && strings.HasPrefix(c.D(st.Addr), "&"+rng+".") {
+					n++
+				}
+			}
+			c.Report(scan, "permanent by-height scan: only the upper bound is narrowed", scan.Pos(), n == 1, fmt.Sprintf("%d stores into the range", n))
+			it := c.CallsD(scan, "*.Iter("+rng+", *)")
+			c.ArgIs(scan, "permanent by-height scan runs from the newest record downwards", it, 1, 2, "false")
+			if len(it) == 1 {
+				if mc, ok := CallArg(it[0], 1).(*ssa.MakeClosure); ok {
+					cb := mc.Fn.(*ssa.Function)
+					c.Exists(cb, "permanent by-height scan stops at the first (newest) record", c.ReturnsD(cb, 0, "false"), 1)
+					c.Report(cb, "permanent by-height scan never skips a record", cb.Pos(), len(c.ReturnsD(cb, 0, "true")) == 0, "")
+					c.StoredIs(cb, "permanent by-height scan keeps the record's bytes", c.StoresD(cb, "&var:body"), 1, "b")
+				}
+			}
+		}
+	}
+	// reads never return a state older than the merged one: the permanent state cache drops every
+	// state key of a merged block
+	if fn := c.Need("isaac/database.(*LeveldbPermanent).mergeTempDatabaseFromLeveldb"); fn != nil {
+		c.MP(fn, "merge succeeds only after the state cache dropped the merged block's state keys", c.SuccessReturns(fn), 1, GOk("temp.iterStateKeys(*)"))
+		if cl := c.ClosureWithCall(fn, "db.removeStateFromCache(stateKey)"); cl != nil {
+			c.Report(cl, "every state key of the merged block is dropped from the cache", cl.Pos(), len(c.ReturnsD(cl, 0, "false")) == 0, "the callback never stops early")
+		} else {
+			c.Unresolved(fn, "cache purge callback", "not found")
+		}
 	}
 }
